@@ -1,7 +1,10 @@
 /-
   C08 — helper lemmas: induction over schedules and the inductive invariants behind the theorems of
-  Props.lean (G1 control skeleton, G2 handler bookkeeping, G3 message flow).
+  Props.lean.
+    G1 `Ctl`   the control skeleton (once-guards, who may be where when the handler is closed)
+    G2 `Book`  the handler's bookkeeping (subscriptions map, goroutines, Stop() calls, registry)
 -/
+import Mathlib.Data.List.Nodup
 import ApiFu.C08.Model
 namespace ApiFu.C08
 
@@ -307,5 +310,628 @@ theorem ctl_step {s : Sys} (cfg : Cfg) (h : Ctl s) (e : Ev) : Ctl (stepS cfg s e
 
 theorem ctl_reachable (cfg : Cfg) (evs : List Ev) : Ctl (run cfg init evs) :=
   run_induction cfg Ctl init ctl_init (fun _ e h => ctl_step cfg h e) evs
+
+
+/-! ### G2: the handler's bookkeeping -/
+
+structure BookAbs where
+  subs : List (Id × Gen)
+  tasks : List (Gen × Id × Bool)     -- gen, id, cancelled
+  stops : List Gen
+  execs : List Gen                   -- operations for which `exec _ subscription` was logged
+  nextGen : Gen
+  closed : Bool
+  registered : Bool
+  didInit : Bool
+
+def stopsOf (log : List Out) : List Gen := log.filterMap fun | .stop g => some g | _ => none
+def execSubsOf (log : List Out) : List Gen := log.filterMap fun | .exec g .subscription => some g | _ => none
+
+def absBook (s : Sys) : BookAbs :=
+  { subs := s.subs, tasks := s.tasks.map (fun t => (t.gen, t.id, t.cancelled)), stops := stopsOf s.log,
+    execs := execSubsOf s.log, nextGen := s.nextGen, closed := s.handlerClosed, registered := s.registered,
+    didInit := s.didInit }
+
+def BookA (a : BookAbs) : Prop :=
+  (a.subs.map (·.1)).Nodup ∧ (a.subs.map (·.2)).Nodup ∧ (a.tasks.map (·.1)).Nodup ∧
+  (∀ t ∈ a.tasks, t.1 < a.nextGen) ∧
+  (∀ p ∈ a.subs, (p.2, p.1, false) ∈ a.tasks) ∧
+  (∀ t ∈ a.tasks, a.stops.count t.1 = if t.1 ∈ a.subs.map (·.2) then 0 else 1) ∧
+  (∀ t ∈ a.tasks, (t.2.2 = true ↔ t.1 ∉ a.subs.map (·.2))) ∧
+  (∀ g, g ∉ a.tasks.map (·.1) → a.stops.count g = 0) ∧
+  (a.closed = true → a.subs = [] ∧ a.registered = false) ∧
+  (∀ g, g ∈ a.execs ↔ g ∈ a.tasks.map (·.1)) ∧
+  (a.didInit = false → a.tasks = [])
+
+def Book (s : Sys) : Prop := BookA (absBook s)
+
+theorem book_init : Book init := by
+  simp [Book, BookA, absBook, init, stopsOf, execSubsOf]
+
+/-- Changes that cannot hurt: the generation counter grows, the connection gets deregistered, init happens. -/
+theorem bookA_weaken {a a' : BookAbs} (h : BookA a) (h1 : a'.subs = a.subs) (h2 : a'.tasks = a.tasks)
+    (h3 : a'.stops = a.stops) (h4 : a'.execs = a.execs) (h5 : a.nextGen ≤ a'.nextGen) (h6 : a'.closed = a.closed)
+    (h7 : a'.registered = true → a.registered = true) (h8 : a.didInit = true → a'.didInit = true) : BookA a' := by
+  unfold BookA at *
+  rw [h1, h2, h3, h4, h6]
+  obtain ⟨a1, a2, a3, a4, a5, a6, a7, a8, a9, a10, a11⟩ := h
+  refine ⟨a1, a2, a3, ?_, a5, a6, a7, a8, ?_, a10, ?_⟩
+  · intro t ht; exact Nat.lt_of_lt_of_le (a4 t ht) h5
+  · intro hc; have := a9 hc; refine ⟨this.1, ?_⟩
+    cases hr : a'.registered with
+    | false => rfl
+    | true => have := h7 hr; simp_all
+  · intro hd; apply a11; cases hd' : a.didInit with
+    | false => rfl
+    | true => have := h8 hd'; simp_all
+
+@[simp] theorem stopsOf_append (a b : List Out) : stopsOf (a ++ b) = stopsOf a ++ stopsOf b := by simp [stopsOf]
+@[simp] theorem execSubsOf_append (a b : List Out) : execSubsOf (a ++ b) = execSubsOf a ++ execSubsOf b := by simp [execSubsOf]
+
+theorem stopCount_eq (g : Gen) (log : List Out) : stopCount g log = (stopsOf log).count g := by
+  induction log with
+  | nil => rfl
+  | cons o rest ih =>
+    cases o <;> simp_all [stopCount, stopsOf, List.filter_cons, List.count_cons]
+    rename_i g'
+    by_cases h : g' = g <;> simp [h] <;> omega
+
+
+theorem erase_gens {subs : List (Id × Gen)} (hi : (subs.map (·.1)).Nodup) (hg : (subs.map (·.2)).Nodup)
+    {id : Id} {g : Gen} (hm : (id, g) ∈ subs) (x : Gen) :
+    x ∈ (subs.filter (fun p => p.1 != id)).map (·.2) ↔ (x ∈ subs.map (·.2) ∧ x ≠ g) := by
+  simp only [List.mem_map, List.mem_filter]
+  constructor
+  · rintro ⟨p, ⟨hp, hne⟩, rfl⟩
+    refine ⟨⟨p, hp, rfl⟩, ?_⟩
+    intro he
+    have := List.inj_on_of_nodup_map hg hp hm he
+    subst this; simp at hne
+  · rintro ⟨⟨p, hp, rfl⟩, hne⟩
+    refine ⟨p, ⟨hp, ?_⟩, rfl⟩
+    simp only [bne_iff_ne, ne_eq]
+    intro he
+    have := List.inj_on_of_nodup_map hi hp hm he
+    subst this; exact hne rfl
+
+def markStopped (g : Gen) (t : Gen × Id × Bool) : Gen × Id × Bool := if t.1 == g then (t.1, t.2.1, true) else t
+
+theorem markStopped_fst (g : Gen) (t : Gen × Id × Bool) : (markStopped g t).1 = t.1 := by
+  unfold markStopped; split <;> rfl
+
+theorem map_markStopped_fst (g : Gen) (ts : List (Gen × Id × Bool)) : (ts.map (markStopped g)).map (·.1) = ts.map (·.1) := by
+  simp [List.map_map, Function.comp_def, markStopped_fst]
+
+/-- Stopping the subscription that holds `id` and deleting its map entry (HandleStop, and the
+    release of an ended subscription in HandleStart). -/
+theorem bookA_stop {a : BookAbs} (h : BookA a) {id : Id} {g : Gen} (hm : (id, g) ∈ a.subs) :
+    BookA { a with subs := a.subs.filter (fun p => p.1 != id), tasks := a.tasks.map (markStopped g),
+                   stops := a.stops ++ [g] } := by
+  obtain ⟨a1, a2, a3, a4, a5, a6, a7, a8, a9, a10, a11⟩ := h
+  have eg := erase_gens a1 a2 hm
+  have hgt : (g, id, false) ∈ a.tasks := a5 _ hm
+  have hgs : g ∈ a.subs.map (·.2) := List.mem_map.mpr ⟨_, hm, rfl⟩
+  refine ⟨?_, ?_, ?_, ?_, ?_, ?_, ?_, ?_, ?_, ?_, ?_⟩
+  · exact (List.filter_sublist.map _).nodup a1
+  · exact (List.filter_sublist.map _).nodup a2
+  · show ((a.tasks.map (markStopped g)).map (·.1)).Nodup
+    rw [map_markStopped_fst]; exact a3
+  · intro t ht
+    obtain ⟨t0, ht0, rfl⟩ := List.mem_map.mp ht
+    rw [markStopped_fst]; exact a4 t0 ht0
+  · intro p hp
+    obtain ⟨hp1, hp2⟩ := List.mem_filter.mp hp
+    have hpg : p.2 ≠ g := ((eg p.2).mp (List.mem_map.mpr ⟨p, hp, rfl⟩)).2
+    refine List.mem_map.mpr ⟨(p.2, p.1, false), a5 p hp1, ?_⟩
+    simp [markStopped, hpg]
+  · intro t ht
+    obtain ⟨t0, ht0, rfl⟩ := List.mem_map.mp ht
+    simp only [markStopped_fst, List.count_append, eg]
+    have := a6 t0 ht0
+    by_cases hg0 : t0.1 = g
+    · rw [hg0] at this ⊢; simp [hgs] at this; simp [this]
+    · have hne : ¬ g = t0.1 := fun h => hg0 h.symm
+      simp [this, hg0, hne]
+      split <;> simp_all
+  · intro t ht
+    obtain ⟨t0, ht0, rfl⟩ := List.mem_map.mp ht
+    simp only [markStopped_fst, eg]
+    have := a7 t0 ht0
+    by_cases hg0 : t0.1 = g
+    · simp [markStopped, hg0]
+    · simp [markStopped, hg0, this]
+  · intro g' hg'
+    simp only [map_markStopped_fst] at hg'
+    have hne : g ≠ g' := by
+      intro he; subst he; exact hg' (List.mem_map.mpr ⟨_, hgt, rfl⟩)
+    simp [List.count_append, a8 g' hg', hne]
+  · intro hc; have := (a9 hc).1; rw [this] at hm; cases hm
+  · intro g'; simp only [map_markStopped_fst]; exact a10 g'
+  · intro hd; simp [a11 hd]
+
+
+/-- A new subscription: map entry, goroutine, `exec` mark. -/
+theorem bookA_startSub {a : BookAbs} (h : BookA a) {id : Id} {g : Gen} (hid : id ∉ a.subs.map (·.1))
+    (hlt : ∀ t ∈ a.tasks, t.1 < g) (hg : g < a.nextGen) (hd : a.didInit = true) (hc : a.closed = false) :
+    BookA { a with subs := (id, g) :: a.subs, tasks := a.tasks ++ [(g, id, false)], execs := a.execs ++ [g] } := by
+  obtain ⟨a1, a2, a3, a4, a5, a6, a7, a8, a9, a10, a11⟩ := h
+  have hgt : g ∉ a.tasks.map (·.1) := by
+    intro hm; obtain ⟨t, ht, rfl⟩ := List.mem_map.mp hm; exact Nat.lt_irrefl _ (hlt t ht)
+  have hgs : g ∉ a.subs.map (·.2) := by
+    intro hm; obtain ⟨p, hp, rfl⟩ := List.mem_map.mp hm
+    exact hgt (List.mem_map.mpr ⟨_, a5 p hp, rfl⟩)
+  refine ⟨?_, ?_, ?_, ?_, ?_, ?_, ?_, ?_, ?_, ?_, ?_⟩
+  · simpa [List.nodup_cons] using ⟨by simpa using hid, a1⟩
+  · simpa [List.nodup_cons] using ⟨by simpa using hgs, a2⟩
+  · simp only [List.map_append, List.map_cons, List.map_nil]
+    rw [List.nodup_append]
+    refine ⟨a3, by simp, ?_⟩
+    intro x hx y hy; simp at hy; subst hy; intro he; subst he; exact hgt hx
+  · intro t ht
+    rcases List.mem_append.mp ht with ht | ht
+    · exact a4 t ht
+    · simp at ht; subst ht; exact hg
+  · intro p hp
+    rcases List.mem_cons.mp hp with rfl | hp
+    · simp
+    · exact List.mem_append_left _ (a5 p hp)
+  · intro t ht
+    rcases List.mem_append.mp ht with ht | ht
+    · have hne : t.1 ≠ g := fun he => hgt (he ▸ List.mem_map.mpr ⟨t, ht, rfl⟩)
+      have := a6 t ht
+      simp only [List.map_cons, List.mem_cons, hne, false_or]; exact this
+    · simp at ht; subst ht
+      simp [a8 g hgt]
+  · intro t ht
+    rcases List.mem_append.mp ht with ht | ht
+    · have hne : t.1 ≠ g := fun he => hgt (he ▸ List.mem_map.mpr ⟨t, ht, rfl⟩)
+      have := a7 t ht
+      simp only [List.map_cons, List.mem_cons, hne, false_or]; exact this
+    · simp at ht; subst ht; simp
+  · intro g' hg'
+    apply a8
+    intro hm; apply hg'; simp only [List.map_append, List.mem_append]; exact Or.inl hm
+  · intro hcl; simp [hc] at hcl
+  · intro g'
+    simp only [List.mem_append, List.map_append, List.map_cons, List.map_nil, List.mem_singleton, a10 g']
+  · intro hf; simp [hd] at hf
+
+def stopErase (a : BookAbs) (p : Id × Gen) : BookAbs :=
+  { a with subs := a.subs.filter (fun q => q.1 != p.1), tasks := a.tasks.map (markStopped p.2), stops := a.stops ++ [p.2] }
+
+theorem bookA_fold (l : List (Id × Gen)) : ∀ (a : BookAbs), BookA a → (∀ p ∈ l, p ∈ a.subs) → (l.map (·.1)).Nodup →
+    BookA (l.foldl stopErase a) ∧ (l.foldl stopErase a).subs = a.subs.filter (fun q => !(l.map (·.1)).contains q.1) ∧
+    (l.foldl stopErase a).tasks = l.foldl (fun ts p => ts.map (markStopped p.2)) a.tasks ∧
+    (l.foldl stopErase a).stops = a.stops ++ l.map (·.2) ∧
+    (l.foldl stopErase a).execs = a.execs ∧ (l.foldl stopErase a).nextGen = a.nextGen ∧
+    (l.foldl stopErase a).closed = a.closed ∧ (l.foldl stopErase a).registered = a.registered ∧
+    (l.foldl stopErase a).didInit = a.didInit := by
+  induction l with
+  | nil => intro a h _ _; simp [h]
+  | cons p rest ih =>
+    intro a h hsub hnd
+    have hp : p ∈ a.subs := hsub p (by simp)
+    have h1 : BookA (stopErase a p) := bookA_stop (id := p.1) (g := p.2) h hp
+    rw [List.map_cons, List.nodup_cons] at hnd
+    have hsub' : ∀ q ∈ rest, q ∈ (stopErase a p).subs := by
+      intro q hq
+      simp only [stopErase, List.mem_filter]
+      refine ⟨hsub q (by simp [hq]), ?_⟩
+      simp only [bne_iff_ne, ne_eq]
+      intro he; exact hnd.1 (he ▸ List.mem_map.mpr ⟨q, hq, rfl⟩)
+    obtain ⟨i1, i2, i3, i4, i5, i6, i7, i8, i9⟩ := ih (stopErase a p) h1 hsub' hnd.2
+    simp only [List.foldl_cons]
+    refine ⟨i1, ?_, ?_, ?_, ?_, ?_, ?_, ?_, ?_⟩
+    · rw [i2]; simp only [stopErase, List.filter_filter]
+      apply List.filter_congr; intro q _; simp [Bool.and_comm, bne, Bool.not_or]
+    · rw [i3]; rfl
+    · rw [i4]; simp [stopErase]
+    · rw [i5]; rfl
+    · rw [i6]; rfl
+    · rw [i7]; rfl
+    · rw [i8]; rfl
+    · rw [i9]; rfl
+
+/-- HandleClose: every remaining subscription is stopped, the map dropped, the connection deregistered. -/
+theorem bookA_close {a : BookAbs} (h : BookA a) :
+    BookA { a with subs := [], tasks := a.subs.foldl (fun ts p => ts.map (markStopped p.2)) a.tasks,
+                   stops := a.stops ++ a.subs.map (·.2), closed := true, registered := false } := by
+  obtain ⟨i1, i2, i3, i4, i5, i6, i7, i8, i9⟩ := bookA_fold a.subs a h (fun _ hp => hp) h.1
+  have hs : (a.subs.foldl stopErase a).subs = [] := by
+    rw [i2]; apply List.filter_eq_nil_iff.mpr
+    intro q hq; simp; exact ⟨q.2, hq⟩
+  unfold BookA at i1 ⊢
+  rw [hs, i3, i4, i5, i6] at i1
+  obtain ⟨b1, b2, b3, b4, b5, b6, b7, b8, b9, b10, b11⟩ := i1
+  rw [i9] at b11
+  exact ⟨b1, b2, b3, b4, b5, b6, b7, b8, fun _ => ⟨rfl, rfl⟩, b10, b11⟩
+
+
+/-! Concrete primitives on the abstraction -/
+
+def Out.quiet : Out → Bool
+  | .stop _ => false
+  | .exec _ .subscription => false
+  | _ => true
+
+theorem absBook_emit (s : Sys) (o : Out) (h : o.quiet = true) : absBook (emit s o) = absBook s := by
+  cases o <;> simp_all [absBook, emit, stopsOf, execSubsOf, Out.quiet]
+  rename_i g k; cases k <;> simp_all [Out.quiet]
+
+theorem absBook_beginClosing (s : Sys) (c : Nat) : absBook (beginClosing s c) = absBook s := by
+  unfold beginClosing; split <;> rfl
+
+theorem absBook_trySend (cfg : Cfg) (s : Sys) (f : SFrame) : absBook (trySend cfg s f).1 = absBook s := by
+  unfold trySend; split
+  · rfl
+  · split
+    · exact absBook_emit _ _ rfl
+    · rfl
+
+theorem absBook_doneSending (s : Sys) (tc : Option Nat) : absBook (doneSending s tc) = absBook s := by
+  unfold doneSending; split
+  · rw [absBook_beginClosing]; rfl
+  · rfl
+
+theorem absBook_pump (cfg : Cfg) (s : Sys) (p : List SFrame) (fc : Bool) (tc : Option Nat) :
+    absBook (pump cfg s p fc tc) = absBook s := by
+  induction p generalizing s with
+  | nil => unfold pump; exact absBook_doneSending s tc
+  | cons f rest ih =>
+    unfold pump
+    have h1 := absBook_trySend cfg s f
+    split
+    · rename_i s' heq; rw [heq] at h1; rw [ih]; exact h1
+    · rename_i s' heq; rw [heq] at h1; rw [absBook_doneSending]
+      split
+      · rw [absBook_beginClosing]; exact h1
+      · exact h1
+    · rename_i s' heq; rw [heq] at h1; exact h1
+
+theorem map_setTask_cancel (ts : List Task) (g : Gen) :
+    (setTask ts g (fun t => { t with cancelled := true })).map (fun t => (t.gen, t.id, t.cancelled)) =
+    (ts.map (fun t => (t.gen, t.id, t.cancelled))).map (markStopped g) := by
+  simp only [setTask, List.map_map]
+  apply List.map_congr_left
+  intro t _
+  simp only [Function.comp, markStopped]
+  split <;> rfl
+
+theorem map_setTask_same (ts : List Task) (g : Gen) (f : Task → Task)
+    (hf : ∀ t, (f t).gen = t.gen ∧ (f t).id = t.id ∧ (f t).cancelled = t.cancelled) :
+    (setTask ts g f).map (fun t => (t.gen, t.id, t.cancelled)) = ts.map (fun t => (t.gen, t.id, t.cancelled)) := by
+  simp only [setTask, List.map_map]
+  apply List.map_congr_left
+  intro t _
+  simp only [Function.comp]
+  split
+  · simp [hf t]
+  · rfl
+
+theorem absBook_callStop (s : Sys) (g : Gen) :
+    absBook (callStop s g) = { absBook s with tasks := (absBook s).tasks.map (markStopped g), stops := (absBook s).stops ++ [g] } := by
+  simp [absBook, callStop, emit, map_setTask_cancel, stopsOf, execSubsOf]
+
+theorem findSub_mem {subs : List (Id × Gen)} {id : Id} {g : Gen} (h : findSub subs id = some g) : (id, g) ∈ subs := by
+  unfold findSub at h
+  split at h
+  · rename_i p hp
+    have h1 := List.mem_of_find?_eq_some hp
+    have h2 := List.find?_some hp
+    simp at h2 h; subst h; subst h2; exact h1
+  · cases h
+
+theorem findSub_none {subs : List (Id × Gen)} {id : Id} (h : findSub subs id = none) : id ∉ subs.map (·.1) := by
+  unfold findSub at h
+  split at h
+  · cases h
+  · rename_i hp
+    intro hm; obtain ⟨p, hp1, rfl⟩ := List.mem_map.mp hm
+    have := List.find?_eq_none.mp hp p hp1; simp at this
+
+/-- Stop the subscription holding `id` and delete its entry (HandleStop; the release in HandleStart). -/
+theorem book_stopErase {s : Sys} (h : Book s) {id : Id} {g : Gen} (hf : findSub s.subs id = some g) :
+    Book (callStop { s with subs := eraseSub s.subs id } g) := by
+  unfold Book at *
+  rw [absBook_callStop]
+  exact bookA_stop (id := id) (g := g) h (findSub_mem hf)
+
+theorem book_handleStop {s : Sys} (h : Book s) (id : Id) : Book (handleStop s id) := by
+  unfold handleStop
+  split
+  · exact h
+  · rename_i g hf; exact book_stopErase h hf
+
+theorem book_of_abs {s s' : Sys} (he : absBook s' = absBook s) (h : Book s) : Book s' := by
+  unfold Book; rw [he]; exact h
+
+/-- After the duplicate-id check the id is free, the goroutines are the same, nothing else moved. -/
+theorem book_admitSub {cfg : Cfg} {s s' : Sys} (h : Book s) {id : Id} (ha : admitSub cfg s id = some s') :
+    Book s' ∧ id ∉ s'.subs.map (·.1) ∧ s'.tasks.map (·.gen) = s.tasks.map (·.gen) ∧ s'.nextGen = s.nextGen ∧
+    s'.didInit = s.didInit ∧ s'.handlerClosed = s.handlerClosed := by
+  unfold admitSub at ha
+  split at ha
+  · rename_i hn; cases ha; exact ⟨h, findSub_none hn, rfl, rfl, rfl, rfl⟩
+  · rename_i g' hf
+    split at ha
+    · cases ha
+      refine ⟨book_stopErase h hf, ?_, ?_, rfl, rfl, rfl⟩
+      · simp [callStop, emit, eraseSub]
+      · simp [callStop, emit, setTask, List.map_map, Function.comp_def]
+        intro t _; split <;> rfl
+    · cases ha
+
+theorem book_startSync {s : Sys} (h : Book s) (g : Gen) (id : Id) (k : OpKind) (e : Bool) (hk : k ≠ .subscription) :
+    Book (startSync s g id k e).1 := by
+  unfold startSync
+  cases e
+  · exact book_of_abs (absBook_emit _ _ rfl) h
+  · apply book_of_abs _ h
+    simp only [ite_true]
+    rw [absBook_emit _ _ (by cases k <;> simp_all [Out.quiet]), absBook_emit _ _ rfl]
+
+theorem book_startSub {s : Sys} (h : Book s) {g : Gen} {id : Id} (hid : id ∉ s.subs.map (·.1))
+    (hlt : ∀ t ∈ s.tasks, t.gen < g) (hg : g < s.nextGen) (hd : s.didInit = true) (hc : s.handlerClosed = false) :
+    Book (startSub s g id) := by
+  unfold Book at *
+  have : absBook (startSub s g id) =
+      { absBook s with subs := (id, g) :: (absBook s).subs, tasks := (absBook s).tasks ++ [(g, id, false)],
+                       execs := (absBook s).execs ++ [g] } := by
+    simp [absBook, startSub, emit, stopsOf, execSubsOf]
+  rw [this]
+  apply bookA_startSub h hid _ hg hd hc
+  intro t ht
+  obtain ⟨t0, ht0, rfl⟩ := List.mem_map.mp ht
+  exact hlt t0 ht0
+
+
+theorem book_handleStart {cfg : Cfg} {s : Sys} (h : Book s) {g : Gen} (id : Id) (k : OpKind)
+    (hlt : ∀ t ∈ s.tasks, t.gen < g) (hg : g < s.nextGen) (hd : s.didInit = true) (hc : s.handlerClosed = false) :
+    Book (handleStart cfg s g id k).1 := by
+  unfold handleStart
+  cases k <;> simp only []
+  · exact book_startSync h g id _ _ (by simp)
+  · exact book_startSync h g id _ _ (by simp)
+  · split
+    · exact h
+    · rename_i s' ha
+      obtain ⟨b1, b2, b3, b4, b5, b6⟩ := book_admitSub h ha
+      apply book_startSub b1 b2 _ (b4 ▸ hg) (b5 ▸ hd) (b6 ▸ hc)
+      intro t ht
+      have : t.gen ∈ s.tasks.map (·.gen) := b3 ▸ List.mem_map.mpr ⟨t, ht, rfl⟩
+      obtain ⟨t0, ht0, he⟩ := List.mem_map.mp this
+      rw [← he]; exact hlt t0 ht0
+  · split
+    · exact h
+    · rename_i s' ha
+      exact book_startSync (book_admitSub h ha).1 g id _ _ (by simp)
+  · exact book_startSync h g id _ _ (by simp)
+
+theorem absBook_stopAll (l : List (Id × Gen)) : ∀ s : Sys, absBook (stopAll s l) =
+    { absBook s with tasks := l.foldl (fun ts p => ts.map (markStopped p.2)) (absBook s).tasks,
+                     stops := (absBook s).stops ++ l.map (·.2) } := by
+  induction l with
+  | nil => intro s; simp [stopAll]
+  | cons p rest ih =>
+    intro s
+    unfold stopAll
+    rw [ih, absBook_callStop]
+    simp
+
+theorem book_handleClose {s : Sys} (h : Book s) : Book (handleClose s) := by
+  unfold Book at *
+  have hc := bookA_close h
+  unfold handleClose
+  simp only []
+  have e := absBook_stopAll s.subs s
+  split
+  · have : absBook (emit { (stopAll s s.subs) with subs := [], handlerClosed := true, registered := false } Out.deregistered) =
+        { absBook s with subs := [], tasks := (absBook s).subs.foldl (fun ts p => ts.map (markStopped p.2)) (absBook s).tasks,
+                         stops := (absBook s).stops ++ (absBook s).subs.map (·.2), closed := true, registered := false } := by
+      rw [absBook_emit _ _ rfl]
+      have := congrArg BookAbs.tasks e
+      have := congrArg BookAbs.stops e
+      have := congrArg BookAbs.execs e
+      have := congrArg BookAbs.nextGen e
+      have := congrArg BookAbs.didInit e
+      simp_all [absBook]
+    rw [this]; exact hc
+  · rename_i hr
+    have hr' : s.registered = false := by
+      have := congrArg BookAbs.registered e; simp [absBook] at this; simp_all
+    have : absBook { (stopAll s s.subs) with subs := [], handlerClosed := true } =
+        { absBook s with subs := [], tasks := (absBook s).subs.foldl (fun ts p => ts.map (markStopped p.2)) (absBook s).tasks,
+                         stops := (absBook s).stops ++ (absBook s).subs.map (·.2), closed := true, registered := false } := by
+      have := congrArg BookAbs.tasks e
+      have := congrArg BookAbs.stops e
+      have := congrArg BookAbs.execs e
+      have := congrArg BookAbs.nextGen e
+      have := congrArg BookAbs.didInit e
+      have := congrArg BookAbs.registered e
+      simp_all [absBook]
+    rw [this]; exact hc
+
+theorem book_finishClosing {s : Sys} (h : Book s) : Book (finishClosing s) := by
+  unfold finishClosing
+  split
+  · exact h
+  · exact book_handleClose (s := { s with finishOnce := true }) h
+
+
+theorem book_weaken {s s' : Sys} (h : Book s) (h1 : s'.subs = s.subs) (h2 : s'.tasks = s.tasks) (h3 : s'.log = s.log)
+    (h5 : s.nextGen ≤ s'.nextGen) (h6 : s'.handlerClosed = s.handlerClosed)
+    (h7 : s'.registered = true → s.registered = true) (h8 : s.didInit = true → s'.didInit = true) : Book s' := by
+  unfold Book at *
+  apply bookA_weaken h <;> simp [absBook, *] <;> assumption
+
+theorem absBook_withTasks (s : Sys) (ts : List Task)
+    (h : ts.map (fun t => (t.gen, t.id, t.cancelled)) = s.tasks.map (fun t => (t.gen, t.id, t.cancelled))) :
+    absBook { s with tasks := ts } = absBook s := by
+  simp only [absBook, h]
+
+theorem absBook_writerExit (s : Sys) : absBook (writerExit s) = absBook s := rfl
+
+theorem book_taskLt {s : Sys} (h : Book s) : ∀ t ∈ s.tasks, t.gen < s.nextGen := by
+  intro t ht
+  exact h.2.2.2.1 (t.gen, t.id, t.cancelled) (List.mem_map.mpr ⟨t, ht, rfl⟩)
+
+theorem book_handle {cfg : Cfg} {s : Sys} (h : Book s) (hc : s.handlerClosed = false) (f : CFrame) :
+    Book (handle cfg s f) := by
+  have he : Book (emit s (.recv f s.didInit)) := book_of_abs (absBook_emit _ _ rfl) h
+  unfold handle
+  cases f with
+  | close =>
+    simp only []; unfold readerExit
+    apply book_of_abs _ he
+    show absBook { beginClosing _ 1011 with reader := .done } = _
+    have := absBook_beginClosing { emit s (.recv CFrame.close s.didInit) with closeRecv := true } 1011
+    simp only [absBook] at this ⊢; exact this
+  | malformed => simp only []; split; exact he; exact book_of_abs (absBook_beginClosing _ _) he
+  | init ok =>
+    cases ok <;> simp only [] <;> split
+    · exact book_of_abs (absBook_pump _ _ _ _ _) he
+    · exact book_of_abs (absBook_beginClosing _ _) he
+    · apply book_of_abs (absBook_pump _ _ _ _ _)
+      exact book_weaken he rfl rfl rfl (Nat.le_refl _) rfl (fun x => x) (fun _ => rfl)
+    · apply book_of_abs (absBook_pump _ _ _ _ _)
+      exact book_weaken he rfl rfl rfl (Nat.le_refl _) rfl (fun x => x) (fun _ => rfl)
+  | start id k =>
+    simp only []
+    have hn : Book { emit s (.recv (CFrame.start id k) s.didInit) with nextGen := s.nextGen + 1 } :=
+      book_weaken he rfl rfl rfl (Nat.le_succ _) rfl (fun x => x) (fun x => x)
+    split
+    · exact hn
+    · rename_i hd
+      apply book_of_abs (absBook_pump _ _ _ _ _)
+      apply book_handleStart hn id k
+      · exact book_taskLt h
+      · exact Nat.lt_succ_self _
+      · simpa using hd
+      · exact hc
+  | startBad id => simp only []; split; exact he; split; exact he; exact book_of_abs (absBook_beginClosing _ _) he
+  | stop id => simp only []; split; exact he; exact book_handleStop he id
+  | ping =>
+    simp only []; split; exact he
+    split
+    · split; exact he; exact book_of_abs (absBook_pump _ _ _ _ _) he
+    · exact book_of_abs (absBook_beginClosing _ _) he
+  | pong => exact he
+  | terminate => simp only []; split <;> exact book_of_abs (absBook_beginClosing _ _) he
+  | unknown => simp only []; split; exact he; exact book_of_abs (absBook_beginClosing _ _) he
+
+theorem book_writerStep {s : Sys} (h : Book s) (pick : WPick) : Book (writerStep s pick) := by
+  have hif : ∀ o : Out, o.quiet = true → Book (if s.connOpen = true then emit s o else s) := by
+    intro o ho; split
+    · exact book_of_abs (absBook_emit _ _ ho) h
+    · exact h
+  unfold writerStep
+  split
+  · cases pick <;> simp only []
+    · split
+      · exact h
+      · split
+        · exact book_of_abs (absBook_emit _ _ rfl) h
+        · exact h
+    · split <;> exact h
+    · split
+      · exact book_of_abs (absBook_writerExit _) (hif _ rfl)
+      · exact h
+  · split
+    · split
+      · exact book_of_abs (absBook_emit _ _ rfl) h
+      · exact h
+    · exact book_weaken (hif (.closeFrame _) rfl) rfl rfl rfl (Nat.le_refl _) rfl (fun x => x) (fun x => x)
+  · exact h
+  · split
+    · exact book_weaken (book_finishClosing h) rfl rfl rfl (Nat.le_refl _) rfl (fun x => x) (fun x => x)
+    · exact h
+  · exact h
+
+theorem book_subTaskStep {cfg : Cfg} {s : Sys} (h : Book s) (g : Gen) : Book (subTaskStep cfg s g) := by
+  have hset : ∀ (s' : Sys) (f : Task → Task), absBook s' = absBook s →
+      (∀ t, (f t).gen = t.gen ∧ (f t).id = t.id ∧ (f t).cancelled = t.cancelled) →
+      absBook { s' with tasks := setTask s'.tasks g f } = absBook s := by
+    intro s' f he hf
+    rw [← he]
+    exact absBook_withTasks _ _ (map_setTask_same _ _ _ hf)
+  unfold subTaskStep
+  split
+  · exact h
+  · split
+    · split
+      · apply book_of_abs _ h
+        rw [absBook_emit _ _ rfl]
+        exact hset s _ rfl (fun t => ⟨rfl, rfl, rfl⟩)
+      · exact h
+    · split
+      · rename_i s' heq; have h1 := congrArg Prod.fst heq; simp at h1; rw [← h1]; exact book_of_abs (absBook_trySend _ _ _) h
+      · rename_i s' r _ heq; have h1 := congrArg Prod.fst heq; simp at h1
+        apply book_of_abs _ h
+        exact hset s' _ (h1 ▸ absBook_trySend _ _ _) (fun t => ⟨rfl, rfl, rfl⟩)
+    · split
+      · rename_i s' heq; have h1 := congrArg Prod.fst heq; simp at h1; rw [← h1]; exact book_of_abs (absBook_trySend _ _ _) h
+      · rename_i s' r _ heq; have h1 := congrArg Prod.fst heq; simp at h1
+        apply book_of_abs _ h
+        exact hset s' _ (h1 ▸ absBook_trySend _ _ _) (fun t => ⟨rfl, rfl, rfl⟩)
+    · exact h
+
+theorem book_sourceStep {s : Sys} (h : Book s) (g : Gen) (e : SrcEv) : Book (sourceStep s g e) := by
+  unfold sourceStep
+  split
+  · exact book_of_abs (absBook_withTasks _ _ (map_setTask_same _ _ _ (fun t => ⟨rfl, rfl, rfl⟩))) h
+  · split
+    · exact h
+    · split
+      · apply book_of_abs _ h
+        rw [absBook_emit _ _ rfl]
+        exact absBook_withTasks _ _ (map_setTask_same _ _ _ (fun t => ⟨rfl, rfl, rfl⟩))
+      · exact h
+
+theorem book_step {cfg : Cfg} {s : Sys} (hc : Ctl s) (h : Book s) (e : Ev) : Book (stepS cfg s e) := by
+  unfold stepS
+  cases e with
+  | client f =>
+    simp only []
+    split
+    · rename_i hr; simp at hr
+      apply book_handle h _ f
+      unfold Ctl at hc
+      cases hcl : s.handlerClosed with
+      | false => rfl
+      | true => have := (hc.2.2.2.1 hcl).1; rw [hr.1] at this; cases this
+    · exact h
+  | source g e => exact book_sourceStep h g e
+  | readerStep =>
+    simp only []
+    split
+    · split
+      · unfold readerExit
+        apply book_of_abs _ h
+        have := absBook_beginClosing s 1011
+        simp only [absBook] at this ⊢; exact this
+      · exact h
+    · exact book_of_abs (absBook_pump _ _ _ _ _) h
+    · exact h
+  | writerStep pick => exact book_writerStep h pick
+  | subTaskStep g => exact book_subTaskStep h g
+  | netDrop => exact book_weaken h rfl rfl rfl (Nat.le_refl _) rfl (fun x => x) (fun x => x)
+  | serverClose =>
+    simp only []
+    split
+    · have h1 : Book (if s.registered = true then emit { s with registered := false } Out.deregistered else s) := by
+        split
+        · apply book_of_abs (absBook_emit _ _ rfl)
+          exact book_weaken h rfl rfl rfl (Nat.le_refl _) rfl (by simp) (fun x => x)
+        · exact h
+      have h2 := book_of_abs (absBook_beginClosing _ 1000) h1
+      exact book_weaken h2 rfl rfl rfl (Nat.le_refl _) rfl (fun x => x) (fun x => x)
+    · split
+      · exact book_weaken (book_finishClosing h) rfl rfl rfl (Nat.le_refl _) rfl (fun x => x) (fun x => x)
+      · exact h
+    · exact h
+
+theorem inv12_reachable (cfg : Cfg) (evs : List Ev) : Ctl (run cfg init evs) ∧ Book (run cfg init evs) :=
+  run_induction cfg (fun s => Ctl s ∧ Book s) init ⟨ctl_init, book_init⟩
+    (fun _ e h => ⟨ctl_step cfg h.1 e, book_step h.1 h.2 e⟩) evs
 
 end ApiFu.C08
